@@ -59,17 +59,20 @@ def describe(o, depth=0):
     return ('value', repr(o))
 
 
-def compile_text(ctx, text: str, flags: int = 0, custom=None, cache=True) -> Outcome:
+def compile_text(ctx, text: str, flags: int = 0, custom=None, cache=True, persist=None) -> Outcome:
     """CSSParser(text, custom, flags).process_selectors() by interpretation."""
     key = ('e2e', text, flags, repr(sorted(custom.items())) if custom else None)
+    cache = cache and persist is None
     if cache and key in ctx._cache:
         return ctx._cache[key]
     from .props.sem import strict_lower
     me = Obj(_cls='css_parser.CSSParser', _name='parser')
-    opts = {'regex_engine': True, 'real_immutable': True, 'max_depth': 120, 'persist': ctx._cache.setdefault('e2e-persist', {})}
+    opts = {'regex_engine': True, 'real_immutable': True, 'max_depth': 120, 'persist': persist if persist is not None else ctx._cache.setdefault('e2e-persist', {})}
     stubs = {'util.lower': strict_lower}
     try:
-        call_function(ctx, 'css_parser.CSSParser.__init__', [text, custom, flags], {}, stubs, me, opts)
+        # the custom map goes through process_custom, as in compile(): names are validated and a fresh table is built
+        table = call_function(ctx, 'css_parser.process_custom', [dict(custom)], {}, stubs, None, opts) if custom is not None else None
+        call_function(ctx, 'css_parser.CSSParser.__init__', [text, table, flags], {}, stubs, me, opts)
         res = call_function(ctx, 'css_parser.CSSParser.process_selectors', [], {}, stubs, me, opts)
         out = Outcome(ir=describe(res))
     except Raised as e:
